@@ -58,7 +58,17 @@ def build(case):
         rs = np.random.RandomState(11)
         if case["noise"]:
             f = f + rs.normal(0, case["noise"] * Fmax, f.size)
-        if case["spikes"]:
+        if case["spikes"] == "ringing":
+            # short ringing bursts in the indentation part: a one-sample
+            # dip flanked by two larger one-sample overshoots
+            ind = np.flatnonzero(arr["tip position"][:n] < 2.5e-7)
+            if ind.size > 40:
+                for q in range(1, 9):
+                    j = ind[q * ind.size // 10]
+                    f[j - 1] += 0.045 * Fmax
+                    f[j] -= 0.03 * Fmax
+                    f[j + 1] += 0.045 * Fmax
+        elif case["spikes"]:
             ind = np.flatnonzero(arr["tip position"][:n] < 2.5e-7)
             if ind.size > 6:
                 for j in ind[[ind.size // 4, ind.size // 2,
@@ -297,6 +307,12 @@ def cases(tier):
         cs.append({"kind": "grid", "model": mk, "noise": noise,
                    "spikes": spikes, "n": n, "position": pos,
                    "state": "fitted"})
+    for mk in MODEL_E:
+        for noise in (0.0, 0.002):
+            for n in (700, 3000):
+                cs.append({"kind": "grid", "model": mk, "noise": noise,
+                           "spikes": "ringing", "n": n, "position": "inside",
+                           "state": "fitted"})
     for st in ("fresh", "preprocessed", "edited", "unsuccessful",
                "unsuccessful-relative"):
         for mk in MODEL_E:
